@@ -49,6 +49,10 @@ type pipe struct {
 	stalled   bool
 	wdeadline time.Time
 	dirtyFlag bool
+	// slow link: after every accepted write the pipe takes no further write for this long (the
+	// simulator, at the next quiescence, schedules the moment it accepts one again)
+	slow        time.Duration
+	needUnstall bool
 	// reader side
 	rbuf []byte
 	reof bool
@@ -108,6 +112,10 @@ func (p *pipe) write(b []byte) (int, error) {
 	p.wq = append(p.wq, c)
 	first := !p.dirtyFlag
 	p.dirtyFlag = true
+	if p.slow > 0 {
+		p.stalled = true
+		p.needUnstall = true
+	}
 	p.mu.Unlock()
 	if first {
 		p.s.mu.Lock()
